@@ -2,9 +2,11 @@
    On every model whose references resolve and whose reference graph is acyclic - stated as: a function d
    satisfying the longest-path equation  d t = max { d t' + 1 | t refers to t' }  exists - the fix-point ends
    within (number of tables) rounds whatever the map iteration orders are, and computes exactly d. *)
-From Coq Require Import String List NArith PArith Bool Lia Permutation.
+From Coq Require Import String List NArith PArith Bool Lia Permutation Arith.
 Import ListNotations.
 Require Import Verif.Db.Depth.
+
+Definition levels_of (st:dstate) : list (N * list name) := sort_by (fun a b => N.leb (fst a) (fst b)) (bydepth st).
 
 Definition refs_cols (cols:list col) : list (name * name) :=
   flat_map (fun c => match cref c with Some r => [r] | None => [] end) cols.
@@ -343,8 +345,8 @@ Proof.
     + exists t. split; [right; exact Hin|]. intros x [<-|Hx]; [lia|auto].
 Qed.
 
-Lemma process_ok ord : perm_oracle ord -> forall fuel rnd st, inv m d st -> (length (incomplete st) < fuel)%nat ->
-  exists st', process fuel ord rnd m st = Ok st' /\ inv m d st' /\ incomplete st' = [].
+Lemma process_ok sk ord : perm_oracle ord -> forall fuel rnd st, inv m d st -> (length (incomplete st) < fuel)%nat ->
+  exists st', process sk fuel ord rnd m st = Ok st' /\ inv m d st' /\ incomplete st' = [].
 Proof.
   intros Hord. induction fuel as [|f IH]; intros rnd st I Hlen; [lia|]. cbn [process].
   set (l := ord rnd (incomplete st)).
@@ -353,7 +355,10 @@ Proof.
   assert (Hsub : forall t, In t l -> In t (incomplete st)) by (intros t Ht; eapply Permutation_in; eauto).
   destruct (round_inv l st I Hnd Hsub) as [I1 [Hincl _]].
   destruct (incomplete (fold_left (step m) l st)) as [|y ys] eqn:Hinc; [eauto|].
-  apply IH; [exact I1|].
+  assert (Hlt : (length (incomplete (fold_left (step m) l st)) < length (incomplete st))%nat); [|
+    assert (Hgo : exists st', process sk f ord (S rnd) m (fold_left (step m) l st) = Ok st' /\ inv m d st' /\ incomplete st' = [])
+      by (apply IH; [exact I1|lia]);
+    destruct sk; try exact Hgo; rewrite <- Hinc; apply Nat.ltb_lt in Hlt; rewrite Hlt; exact Hgo].
   assert (Hne : incomplete st <> []).
   { intros He. rewrite He in Hperm. apply Permutation_sym, Permutation_nil in Hperm. subst l. rewrite Hperm in Hinc. cbn in Hinc. congruence. }
   destruct (min_depth _ Hne) as [t [Hin Hmin]].
@@ -397,15 +402,15 @@ End Fix.
 (* HEADLINE: on acyclic reference graphs the fix-point ends (fuel: one round per table, plus the closing test),
    its result does not depend on the map iteration orders and is the longest-path depth; the depth levels
    partition the tables. *)
-Theorem depth_is_longest_path m d ord fuel :
+Theorem depth_is_longest_path sk m d ord fuel :
   wf m -> is_depth m d -> perm_oracle ord -> (length m < fuel)%nat ->
-  exists st, depth_map fuel ord m = Ok st /\
+  exists st, depth_map sk fuel ord m = Ok st /\
     (forall tb, In tb m -> depth_get (complete st) (tname tb) = d (tname tb)) /\
     (forall t k, (exists l, In (k, l) (bydepth st) /\ In t l) <-> (In t (map tname m) /\ d t = k)) /\
     NoDup (map fst (bydepth st)) /\ NoDup (concat (map snd (bydepth st))).
 Proof.
   intros Hwf Hd Hord Hfuel. unfold depth_map.
-  destruct (process_ok m d Hwf Hd ord Hord fuel 0%nat (init_state m) (init_inv m d Hwf)) as [st [Hp [I He]]].
+  destruct (process_ok m d Hwf Hd sk ord Hord fuel 0%nat (init_state m) (init_inv m d Hwf)) as [st [Hp [I He]]].
   { unfold init_state. cbn [incomplete]. rewrite map_length. exact Hfuel. }
   exists st. split; [exact Hp|].
   assert (Hall : forall t, In t (map tname m) <-> In t (map fst (complete st))).
@@ -423,14 +428,14 @@ Proof.
 Qed.
 
 (* the result is the same for any two iteration-order oracles *)
-Corollary depth_order_independent m d ord1 ord2 fuel :
+Corollary depth_order_independent sk m d ord1 ord2 fuel :
   wf m -> is_depth m d -> perm_oracle ord1 -> perm_oracle ord2 -> (length m < fuel)%nat ->
-  exists st1 st2, depth_map fuel ord1 m = Ok st1 /\ depth_map fuel ord2 m = Ok st2 /\
+  exists st1 st2, depth_map sk fuel ord1 m = Ok st1 /\ depth_map sk fuel ord2 m = Ok st2 /\
     forall tb, In tb m -> depth_get (complete st1) (tname tb) = depth_get (complete st2) (tname tb).
 Proof.
   intros Hwf Hd H1 H2 Hf.
-  destruct (depth_is_longest_path m d ord1 fuel Hwf Hd H1 Hf) as [st1 [E1 [D1 _]]].
-  destruct (depth_is_longest_path m d ord2 fuel Hwf Hd H2 Hf) as [st2 [E2 [D2 _]]].
+  destruct (depth_is_longest_path sk m d ord1 fuel Hwf Hd H1 Hf) as [st1 [E1 [D1 _]]].
+  destruct (depth_is_longest_path sk m d ord2 fuel Hwf Hd H2 Hf) as [st2 [E2 [D2 _]]].
   exists st1, st2. split; [exact E1|]. split; [exact E2|]. intros tb Htb. rewrite D1, D2; auto.
 Qed.
 
@@ -451,16 +456,85 @@ Proof.
 Qed.
 Example ex_model_depth : is_depth ex_model ex_depth.
 Proof. intros tb Htb. cbn in Htb. destruct Htb as [<-|[<-|[<-|[]]]]; reflexivity. Qed.
-Example ex_model_runs : exists st, depth_map 4 rev_ord ex_model = Ok st /\ bydepth st = [(0%N, [1%positive]); (1%N, [2%positive]); (2%N, [3%positive])].
+Example ex_model_runs : exists st, depth_map StopNoProgress 4 rev_ord ex_model = Ok st /\ bydepth st = [(0%N, [1%positive]); (1%N, [2%positive]); (2%N, [3%positive])].
 Proof. eexists. split; vm_compute; reflexivity. Qed.
 
-(* a self reference (or any cycle) never completes: every round leaves the state unchanged.  Go recurses without
-   a guard until the stack is exhausted (that is C20's concern; the C16 generator keeps graphs acyclic). *)
+(* ---- cyclic / dangling references ---- *)
+(* a self reference (or any cycle) never completes a table.  With the recursion the repository had (StopNever)
+   the fix-point never ends: *)
 Definition cyc_model : model := [T 1%positive 1%N [ex_col 10%positive (Some (1%positive, 10%positive))]].
-Theorem depth_cycle_refuted : forall fuel ord, perm_oracle ord -> depth_map fuel ord cyc_model = OutOfFuel.
+Theorem depth_cycle_refuted : forall fuel ord, perm_oracle ord -> depth_map StopNever fuel ord cyc_model = OutOfFuel.
 Proof.
   intros fuel ord Hord. unfold depth_map. generalize 0%nat.
   induction fuel as [|f IH]; intros rnd; [reflexivity|]. cbn [process init_state cyc_model map tname incomplete].
   assert (Hl : ord rnd [1%positive] = [1%positive]) by (apply Permutation_length_1_inv, Permutation_sym, Hord).
   rewrite Hl. cbn. apply (IH (S rnd)).
 Qed.
+
+(* With the stop rule of the current source (StopNoProgress) the fix-point ends on EVERY model - no hypothesis on
+   the references at all - within one pass per table plus one, and leaves no table unplaced. *)
+Lemma step_len m st t : (length (incomplete (step m st t)) <= length (incomplete st))%nat.
+Proof.
+  destruct (step_cases m st t) as [->|[dd [tmp ->]]]; [lia|]. cbn [incomplete]. apply remove_name_length_le.
+Qed.
+Lemma round_len m l : forall st, (length (incomplete (fold_left (step m) l st)) <= length (incomplete st))%nat.
+Proof.
+  induction l as [|t l IH]; intros st; cbn [fold_left]; [lia|]. specialize (IH (step m st t)).
+  pose proof (step_len m st t). lia.
+Qed.
+
+Lemma place_fold_incomplete ld l : forall st x,
+  In x (incomplete (fold_left (place_one ld) l st)) <-> In x (incomplete st) /\ ~ In x l.
+Proof.
+  induction l as [|t l IH]; intros st x; cbn [fold_left]; [tauto|].
+  rewrite IH. unfold place_one at 1. cbn [incomplete In]. rewrite remove_name_in. split.
+  - intros [[H1 H2] H3]. split; [exact H1|]. intros [He|Hl]; [congruence|contradiction].
+  - intros [H1 H2]. split; [split; [exact H1|]|]; intros H; apply H2; [left; congruence|right; exact H].
+Qed.
+
+Lemma insert_by_in {A} (le:A -> A -> bool) x l y : In y (insert_by le x l) <-> y = x \/ In y l.
+Proof.
+  induction l as [|z l IH]; cbn [insert_by In]; [intuition|]. destruct (le x z); cbn [In]; [intuition|].
+  rewrite IH. intuition.
+Qed.
+Lemma sort_by_in {A} (le:A -> A -> bool) l y : In y (sort_by le l) <-> In y l.
+Proof.
+  unfold sort_by. induction l as [|x l IH]; cbn [fold_right In]; [tauto|]. rewrite insert_by_in, IH. intuition.
+Qed.
+
+Lemma place_unordered_empty st : incomplete (place_unordered st) = [].
+Proof.
+  unfold place_unordered. destruct (incomplete (fold_left _ _ st)) as [|x r] eqn:He; [reflexivity|]. exfalso.
+  assert (Hx : In x (incomplete (fold_left (place_one (last_depth (bydepth st))) (sort_names (incomplete st)) st)))
+    by (rewrite He; left; reflexivity).
+  apply place_fold_incomplete in Hx. destruct Hx as [H1 H2]. apply H2. unfold sort_names. apply sort_by_in, H1.
+Qed.
+
+Theorem depth_terminates : forall m ord fuel, (length m < fuel)%nat ->
+  exists st, depth_map StopNoProgress fuel ord m = Ok st /\ incomplete st = [].
+Proof.
+  intros m ord fuel Hf. unfold depth_map.
+  assert (H : forall fuel rnd st, (length (incomplete st) < fuel)%nat ->
+            exists st', process StopNoProgress fuel ord rnd m st = Ok st' /\ incomplete st' = []).
+  { clear. induction fuel as [|f IH]; intros rnd st Hlen; [lia|]. cbn [process].
+    set (st1 := fold_left (step m) (ord rnd (incomplete st)) st).
+    pose proof (round_len m (ord rnd (incomplete st)) st) as Hle. fold st1 in Hle.
+    destruct (incomplete st1) as [|y ys] eqn:Hinc; [eauto|]. rewrite <- Hinc.
+    destruct (Nat.ltb_spec (length (incomplete st1)) (length (incomplete st))) as [Hlt|Hge].
+    - apply IH. lia.
+    - eexists. split; [reflexivity|apply place_unordered_empty]. }
+  apply H. unfold init_state. cbn [incomplete]. rewrite map_length. exact Hf.
+Qed.
+
+(* where the unorderable tables go: after every orderable one, at depth (largest depth) + 1, sorted by name.
+   Tables 5 and 4 refer to each other, 6 to a column that does not exist; 1 <- 2 are orderable. (Example) *)
+Definition mixed_model : model :=
+  [T 5%positive 1%N [ex_col 10%positive (Some (4%positive, 10%positive))];
+   T 2%positive 2%N [ex_col 10%positive (Some (1%positive, 10%positive))];
+   T 6%positive 3%N [ex_col 10%positive (Some (1%positive, 99%positive))];
+   T 4%positive 4%N [ex_col 10%positive (Some (5%positive, 10%positive))];
+   T 1%positive 5%N [ex_col 10%positive None]].
+Example depth_unorderable_placed : forall ord, ord = id_ord \/ ord = rev_ord ->
+  exists st, depth_map StopNoProgress 6 ord mixed_model = Ok st /\
+    levels_of st = [(0%N, [1%positive]); (1%N, [2%positive]); (2%N, [4%positive; 5%positive; 6%positive])].
+Proof. intros ord [->| ->]; eexists; split; vm_compute; reflexivity. Qed.
